@@ -150,3 +150,97 @@ def dotted(e):
         b = dotted(e.value)
         return b + '.' + e.attr if b else None
     return None
+
+
+# ----------------------------------------------------------------------------- symbolic records
+def bind_args(it, fi, args, kwargs, drop_self=True):
+    """bind call arguments to the parameter names of fi (defaults evaluated in the module context)"""
+    from svtstatic.interp import Env
+    a = fi.node.args
+    params = [x.arg for x in a.posonlyargs + a.args]
+    if drop_self and params and params[0] == 'self':
+        params = params[1:]
+    out = {}
+    for p, v in zip(params, args):
+        out[p] = v
+    defaults = dict(zip([x.arg for x in (a.posonlyargs + a.args)][len(a.posonlyargs + a.args) - len(a.defaults):], a.defaults))
+    for p in params[len(args):]:
+        if p in kwargs:
+            out[p] = kwargs[p]
+        elif p in defaults:
+            out[p] = it.eval(defaults[p], Env(module=fi.module))
+        else:
+            raise PyRaise('TypeError', 'missing argument %s' % p)
+    for k in kwargs:
+        if k not in params:
+            raise PyRaise('TypeError', 'unexpected keyword %s' % k)
+    return out
+
+
+def ctor_record_hook(model, cls_qual):
+    """call hook: `Cls(...)` returns a record of its bound constructor arguments (no __init__ run)"""
+    info = model.cls(cls_qual)
+    init = info.method('__init__')
+
+    def hook(it, args, kwargs):
+        o = Obj(info)
+        o.attrs.update(bind_args(it, init, args, kwargs))
+        o.attrs['__record__'] = True
+        return o
+    return hook
+
+
+ARC_OPTS = None
+
+
+def arc_opts(model, extra=None):
+    """interpreter options under which Arc.__init__ runs but _parameterize is summarised by fresh symbols
+    theta, delta (real), center (complex); radius keeps the constructor value"""
+    def namer(o, w):
+        base = o.attrs.get('__name__', 'A')
+        if w == 'center':
+            return Rat.csym(base + '.center')
+        return Rat.sym('%s.%s' % (base, w))
+    opts = {'havoc': {'path.Arc._parameterize'}, 'havoc_keep': ('radius',), 'havoc_namer': namer}
+    if extra:
+        opts.update(extra)
+    return opts
+
+
+def sym_arc(it, name='A', large_arc=False, sweep=True, rotation=None):
+    """a symbolic Arc built by the real constructor (under arc_opts); radii are declared positive"""
+    from svtstatic import poly
+    poly.POSITIVE.update({name + '.rx', name + '.ry'})
+    radius = Rat.sym(name + '.rx') + Rat.sym(name + '.ry') * Rat.const(1j)
+    rot = Rat.sym(name + '.rot') if rotation is None else rotation
+    info = it.model.cls('path.Arc')
+    o = Obj(info)
+    o.attrs['__name__'] = name
+    init = info.method('__init__')
+    from svtstatic.values import Closure
+    it.call_closure(Closure(init, init.node, None, init.module, o, info),
+                    [Rat.csym(name + '.start'), radius, rot, large_arc, sweep, Rat.csym(name + '.end')], {})
+    return o
+
+
+def seg_fields(o):
+    return {k: v for k, v in o.attrs.items() if not k.startswith('_')}
+
+
+def path_sign(it, expr):
+    """what the decisions taken so far on this path imply about sign(expr): subset of {'-','0','+'}"""
+    from svtstatic.interp import _canon_diff, _known_sign
+    expr = to_rat(expr)
+    if expr.is_zero():
+        return frozenset('0')
+    if expr.is_const():
+        c = expr.const_value()
+        return frozenset('+' if c[0] > 0 else '-')
+    ks = _known_sign(expr)
+    if ks is not None:
+        return frozenset('+' if ks > 0 else '-')
+    sgn, key, text = _canon_diff(expr)
+    cur = it.trace.signs.get(key, frozenset('-0+'))
+    if sgn < 0:
+        cur = frozenset({'-': '+', '+': '-', '0': '0'}[c] for c in cur)
+    return cur
